@@ -1778,8 +1778,12 @@ class LoopExpression(Expression):
         if isinstance(obj, Sequence):
             return iter(obj), len(obj)
 
+        try:
+            found = str(obj)
+        except ValueError:  # an int beyond the int to str digit limit
+            found = obj.__class__.__name__
         raise LiquidTypeError(
-            f"expected an iterable at '{self.iterable}', found '{obj}'",
+            f"expected an iterable at '{self.iterable}', found '{found}'",
             token=self.token,
         )
 
@@ -2250,7 +2254,10 @@ def _lt(token: TokenT, left: object, right: object) -> bool:
 
 def _contains(token: TokenT, left: object, right: object) -> bool:
     if isinstance(left, str):
-        return str(right) in left
+        try:
+            return str(right) in left
+        except ValueError:  # an int beyond the int to str digit limit
+            return False
     if isinstance(left, Collection):
         try:
             return right in left
@@ -2288,7 +2295,11 @@ def _to_liquid_string(val: Any, *, auto_escape: bool = False) -> str:
     elif isinstance(val, (Empty, Blank)):
         val = ""
     else:
-        val = str(val)
+        try:
+            val = str(val)
+        except ValueError as err:
+            # An int with more digits than sys.get_int_max_str_digits().
+            raise LiquidValueError(str(err), token=None) from err
 
     if auto_escape:
         val = escape(val)
